@@ -7,7 +7,7 @@ from collections import Counter
 import framework as F
 
 ID = "C07"
-GEN = ["Infra", "Trace", "Interpolation", "Math"]
+GEN = ["Infra", "Trace", "Interpolation", "Math", "ReducerClasses"]
 LEVEL = "proof"
 TECHNIQUE = ("Coq proof: closed forms of the generated one-step trace kernels by induction over the observation list; "
              "refinement of the FoldReducer state machine (over the C01 ring-buffer model) to a newest-first list of "
@@ -29,21 +29,38 @@ LEVEL_TEXT = ("Machine-checked proofs (Coq; real-number instance for the numeric
               "machine; inplace does not matter; clear() at any point of any operation sequence returns exactly the freshly "
               "constructed reducer, clear(keepshape=True) leaves an all-fill record and the next observation is folded as a first "
               "one; the dt setter stores dt, recomputes the decay and rejects non-positive values; structural invariants hold in "
-              "every reachable state.  The model is tied to the code by re-translating the trace / interpolation kernels and the "
-              "record-size expression on every run and by a differential correspondence check of all ten reducer classes (and of "
-              "the six bare kernels) against the real code; closed forms over the observation history evaluated in Python are "
-              "the direct oracle / failing-input search.")
+              "every reachable state.  (3) CLASS WIRING: for each of the ten shipped classes the model's per-element fold (which "
+              "kernel, which attribute as which argument), decay expression exp(-dt/time_constant) (constructor and dt setter, "
+              "which must agree), interpolate and fill value are PROVED EQUAL (57 tie_* obligations, coq/C07/GenTie*.v) to "
+              "definitions generated from the class bodies in inferno/observe/reducers/{trace,general,stats}.py "
+              "(Gen/ReducerClasses.v), and the model's forward / clear / peek / dump / view are proved to follow the statement "
+              "structure of FoldReducer in base.py, emitted only when the method bodies have exactly the expected statement "
+              "shapes.  The model is tied to the code by re-translating the trace / interpolation / smoothing kernels, the "
+              "reducer classes and the record-size expression on every run and by a differential correspondence check of all "
+              "ten reducer classes (and of the six bare kernels) against the real code; closed forms over the observation "
+              "history evaluated in Python are the direct oracle / failing-input search.")
 LEVEL_NOTE = ("Trusted: Coq kernel + stdlib real axioms (sig_forall_dec, sig_not_dec, functional_extensionality_dep, classic); "
-              "translator for core/trace.py, functional/interpolation.py and the record-size expression; hand-written state "
-              "machine C07/Reducer.v (FoldReducer.forward/peek/dump/view/clear, dt setter incl. record resize, "
-              "RecordTensor.select scalar and tensor paths) and the hand-transcribed exponential_smoothing (core/math.py:169-200, "
-              "NOT generated), CA fold, event fold and decay=exp(-dt/tau), all validated by correspondence only (generator "
-              "coverage). NOT proved: binary64 rounding; the record CONTENTS after a dt change that resizes the record and the "
-              "machine-level closed form across a dt change (kernel-level closed form with varying dt is proved; the machine "
-              "level is covered by correspondence + oracle only); torch broadcasting of unequal observation shapes (the generator "
-              "only uses unbroadcastable wrong shapes); time-tensor dimensionality errors. Finding candidate (error path, outside "
-              "the property's quantifier, proved as ca_count_after_failed_forward_refuted, reported in the evidence, not counted): "
+              "translator (tools/translate.py) for core/trace.py, core/math.py exponential_smoothing, functional/interpolation.py, "
+              "the record-size expression and - new - the reducer classes: its per-element reading of the class bodies "
+              "(self.<attr> reads become parameters, casts to the storage data type are the identity on numbers, "
+              "partial(lambda o, c: c, c=cond) is the constant function of the condition) and its exact-shape check of the "
+              "FoldReducer method bodies (the emitted structure is a fixed text guarded by that check, not a general statement "
+              "translation). STILL hand-written in C07/Reducer.v and validated by correspondence only (generator coverage): "
+              "zipping the per-element fold over a tensor and the shape errors, the threading of errors and of the CA counter "
+              "through forward, RecordTensor.select (view, scalar and tensor paths), the dt setter's record resize, the "
+              "EventReducer's non-finite initial values inf / nan (option lifting; proved to agree with the generated fold on "
+              "finite values) and the string -> value mapping of its `initial` argument, constructor argument validation. NOT "
+              "proved: binary64 rounding; the record CONTENTS after a dt change that resizes the record and the machine-level "
+              "closed form across a dt change (kernel-level closed form with varying dt is proved; the machine level is covered "
+              "by correspondence + oracle only); torch broadcasting of unequal observation shapes (the generator only uses "
+              "unbroadcastable wrong shapes); time-tensor dimensionality errors. Finding candidate (error path, outside the "
+              "property's quantifier, proved as ca_count_after_failed_forward_refuted, reported in the evidence, not counted): "
               "CAReducer._count is advanced by a forward() that raises.")
+TRUSTED = ["tools/translate.py translate_reducer_classes: per-element reading of the ten fold reducer class bodies "
+           "(fold / decay / interpolate / fill) and exact-shape check of FoldReducer.forward / clear / peek / dump / view / push "
+           "(Gen/ReducerClasses.v, regenerated on every run; the model is proved equal to it in coq/C07/GenTie*.v)",
+           "hand-written parts of coq/C07/Reducer.v not covered by the ties: tensor zipping and shape errors, error / counter "
+           "threading in forward, RecordTensor.select, dt-setter record resize, EventReducer inf / nan lifting"]
 HEADER = ("From Coq Require Import List ZArith Bool PrimFloat.\n"
           "From Inferno Require Import Base.Num Base.NumF Gen.Trace C01.Ring C07.Reducer C07.ReducerExec.\n"
           "Import ListNotations.\nOpen Scope float_scope.\n")
